@@ -410,6 +410,13 @@ def gen_hostile_sigs(ctx):
             d2 += b'\x03(v)\x00'
             d2 += b'\0' * ((-len(d2)) % 8)
         yield un('v', d2 + b'\x01y\x00\x09', 0, True, None)
+    # variants that START off an 8-byte boundary and hold a struct: y v{(yv)} ... - every level is y, the variant's
+    # signature at 8k+1, one pad byte, the struct at 8(k+1); complete, and cut off inside the innermost levels (an
+    # error found at the bottom must not be re-tried at every level on the way up)
+    for n in ([4, 12, 22, 30] if ctx.quick else [1, 2, 4, 8, 12, 16, 20, 22, 24, 26, 30, 40, 60]):
+        d = (b'\x07' + b'\x04(yv)\x00' + b'\x00') * n + b'\x07' + b'\x01y\x00\x09'
+        for cut in (0, 1, 2, 4, 5, 9, 12):
+            yield un('yv', d[:len(d) - cut], 0, True, None)
 
 
 def gen_typed_mutations(ctx):
